@@ -1,13 +1,39 @@
 (* C02 - Cut commits to its clause and ends the call.
 
-   Full statement: `refines_reference` (Spec/Refine.v) for programs with `!`, against the
-   terminal rules of Spec/SpecSolve.v (EndCut / AnsCut).  PROVED for all programs, directly
-   on the machine: the four clauses of the property below.  NOT YET PROVED: that the answers
-   BEFORE the cut are exactly the reference's (refinement); evaluated by the check's oracle. *)
-From Suiron Require Import Model.Term Model.Subst Model.Rename Model.Solve Spec.SpecSolve Spec.Refine
-  Proofs.SolveDead Proofs.SolveCut.
+   The reference search Spec/SpecCut.v says what `!` means: the search continues, and what comes
+   back carries the signal Cut - the alternatives of everything up to the clause body are
+   abandoned (the goals left of the cut are not retried, C02_reference_cut_signals), the call
+   that chose the clause tries no later clause and ABSORBS the signal, so its caller and its
+   siblings never see it (C02_reference_call_absorbs); an answer that leaves a conjunction in
+   which a cut ran is the conjunction's last ("no answers beyond the one being derived").
 
-Definition C02_full : Prop := refines_reference.
+   PROVED: the engine yields exactly the answers of that reference search, for every program
+   (C02_refines = Proofs/RefineCut.refines_cut), and - directly on the machine, for all
+   programs - the four clauses of the property below. *)
+From Suiron Require Import Model.Term Model.Subst Model.Rename Model.Solve Spec.SpecSolve Spec.SpecCut Spec.Refine
+  Proofs.SolveDead Proofs.SolveCut Proofs.RefineCut.
+
+Theorem C02_refines : forall kb bf q w fs R nd w1 m F R',
+  canswers kb bf fs q w = Ok R ->
+  make_base_node kb (GCall q) w = Ok (nd, w1) ->
+  ask_all kb bf m F nd w1 = Ok R' -> R' = R.
+Proof. exact refines_cut. Qed.
+
+(* the reference: whatever follows a cut, the search of `!` ends with a signal other than Go,
+   so no alternative to its left - and no later clause - is tried *)
+Theorem C02_reference_cut_signals : forall kb bf f s w k a w' g,
+  csolve kb bf (S f) (GBip n_cut None) s w k = Ok (a, w', g) -> g <> Go.
+Proof.
+  intros kb bf f s w k a w' g H. rewrite csolve_S in H. unfold csolve_body in H.
+  change (run_bip bf n_cut None s) with (Ok (mkBipResult (Some s) [] true)) in H. cbn [bind br_sol br_cut br_out] in H.
+  destruct (k s (w_print w []) true) as [[[a1 w1] g1]| |]; cbn [bind mark] in H; try discriminate.
+  injection H as <- <- <-. apply join0_not_go.
+Qed.
+
+(* the reference: leaving a clause body in which a cut ran ends the call (the later clauses,
+   `rest`, are not consulted) and the caller sees Go: the cut is local to the call *)
+Theorem C02_reference_call_absorbs : forall a w rest, after_body (a, w, Cut 0) rest = Ok (a, w, Go).
+Proof. reflexivity. Qed.
 
 (* Every node a cut passes through on its way up - the cut itself, every enclosing
    conjunction / disjunction / not / time node - is committed (no_backtracking set). *)
@@ -54,6 +80,9 @@ Proof. vm_compute. reflexivity. Qed.
 Check C02_cut_commits : forall kb bf fuel nd w nd' r w',
   next kb bf fuel nd w = Ok (nd', r, true, w') -> node_nobt nd' = true.
 
+Print Assumptions C02_refines.
+Print Assumptions C02_reference_cut_signals.
+Print Assumptions C02_reference_call_absorbs.
 Print Assumptions C02_cut_commits.
 Print Assumptions C02_nothing_after_the_cut.
 Print Assumptions C02_the_call_is_committed.
